@@ -82,10 +82,27 @@ def work(job):
     return n, distinct, bad
 
 
+def work_group(group):
+    n = d = 0
+    bad = []
+    for job in group:
+        a_, b_, c_ = work(job)
+        n += a_
+        d += b_
+        bad += c_
+    return n, d, bad
+
+
 def main():
     a = args()
-    jobs = [(c, k, a.tier) for c, k in all_codes()]
-    res = pmap(work, jobs, a.procs, chunk=4)
+    by_lang = {}
+    for c, k in all_codes():
+        by_lang.setdefault(c.split("-")[0], []).append((c, k, a.tier))
+    # the language first, then its regional locales, all in one process (shared regex caches)
+    groups = [[j for j in jobs if j[1] == "language"] + [j for j in jobs if j[1] == "locale"]
+              for jobs in by_lang.values()]
+    res = pmap(work_group, groups, a.procs, chunk=1)
+    jobs = [j for g in groups for j in g]
     failures = []
     total = distinct = 0
     for n, d, bad in res:
